@@ -326,6 +326,39 @@ fn free_running(ctx: &Ctx, base: &[Vec<u8>]) {
     ctx.count(sub, evals, evals, false, Some(json!({"kind": "SAMPLING, not exhaustive: 16 real threads released together by a barrier, no scheduler", "child_processes": rounds, "ops_per_thread": STRESS_OPS.len()})));
 }
 
+/// thorough only: the free-running harness of /verif/miri_c20 under Miri (data-race / UB detector).  A reported data
+/// race or undefined behaviour is a violation; an unavailable toolchain is a note, never a verdict.
+fn miri_pass(ctx: &Ctx) {
+    let sub = "miri_free_running";
+    if !ctx.selected(sub) || ctx.quick() {
+        return;
+    }
+    ctx.trace("miri pass");
+    let root = crate::infra::verif_root();
+    let out = std::process::Command::new("sh")
+        .arg("-c")
+        .arg(format!(
+            "cd {root}/miri_c20 && CARGO_TARGET_DIR=/verif/target/miri MIRIFLAGS='-Zmiri-disable-isolation -Zmiri-ignore-leaks' timeout 2400 cargo +nightly miri run --offline 2>&1 | grep -v '^warning' | tail -60",
+            root = root
+        ))
+        .output();
+    match out {
+        Err(e) => ctx.note(format!("Miri pass not run: {}", e)),
+        Ok(o) => {
+            let text = String::from_utf8_lossy(&o.stdout).to_string();
+            if text.contains("miri pass ok") {
+                ctx.count(sub, 1, 1, false, Some(json!({"kind": "SAMPLING: one Miri execution of 3 threads sharing a wNAF table and entering the same calls together", "result": "no data race, no undefined behaviour"})));
+            } else if text.contains("Data race detected") || text.contains("Undefined Behavior") || text.contains("differs under concurrency") || text.contains("gives a different result") {
+                let line = text.lines().find(|l| l.contains("Data race") || l.contains("Undefined Behavior") || l.contains("panicked")).unwrap_or("").to_string();
+                ctx.violation(sub, 0, Fail::with(format!("Miri (free-running pass, sampling): {}", line.trim()), json!({"miri_output_tail": text.lines().rev().take(25).collect::<Vec<_>>()})));
+                ctx.count(sub, 1, 1, false, None);
+            } else {
+                ctx.note(format!("Miri pass inconclusive (toolchain unavailable or timeout); tail: {}", text.lines().rev().take(3).collect::<Vec<_>>().join(" | ")));
+            }
+        }
+    }
+}
+
 pub fn hex_of(b: &[u8]) -> String {
     b.iter().map(|x| format!("{:02x}", x)).collect()
 }
@@ -454,6 +487,7 @@ pub fn run(ctx: &Ctx) -> (&'static str, &'static str) {
         }
         histories(ctx, &base);
         free_running(ctx, &base);
+        miri_pass(ctx);
     } else {
         ctx.machinery("could not compute fresh-process baselines");
     }
